@@ -123,7 +123,9 @@ GS_EnterSubshell(e, k, c, opt) ==
   LET oldD == MaxD(e.int, Disp(e.act))
       e1 == IF e.act = "C"
             THEN [e EXCEPT !.act = "D", !.orig = "S", !.pend = FALSE, !.par = "C"] ELSE e
-      e2 == IF opt = "Ignore" THEN [e1 EXCEPT !.act = "I"] ELSE e1
+      \* an ignore imposed by the shell is not an inherited one (origin Subshell)
+      e2 == IF opt = "Ignore"
+            THEN [e1 EXCEPT !.act = "I", !.orig = IF e1.act # "I" THEN "S" ELSE e1.orig] ELSE e1
       newS == Disp(e2.act)
       newD == CASE opt = "Keep" -> MaxD(e.int, newS) [] opt = "Clear" -> newS [] opt = "Ignore" -> "I"
   IN [e |-> [e2 EXCEPT !.int = IF opt = "Keep" THEN e.int ELSE "D"],
@@ -318,12 +320,9 @@ InitiallyIgnoredRefused ==
        ELSE /\ (IsVac(ent'[s]) \/ ent'[s].orig = "I")          \* still in that condition
             /\ (o.op = "set_action" /\ o.c = s) => (o.r = "ignored" /\ sys'[s] = sys[s])
     ]_vars
-\* an entry says "inherited" only for what was inherited.
-\* NOT part of `Consistent`: this model, being a transcription of trap/state.rs,
-\* violates it (GS_EnterSubshell with option "Ignore" keeps orig = "I" on an entry
-\* whose inherited action was Default) - finding C11-F1.  The verdict on the code
-\* comes from the same invariant in TrapAbs ("inv:an inherited entry shows the
-\* inherited action"), evaluated on what the real TrapSet shows.
+\* an entry says "inherited" only for what was inherited (finding C11-F1, repaired
+\* in /repo by "fix: a signal the shell itself ignores on subshell entry can still
+\* be trapped there": GS_EnterSubshell sets origin Subshell when it imposes Ignore)
 InheritedIsTrue ==
   \A s \in Sigs : ent[s].orig = "I" => ent[s].act = (IF init[s] = "I" THEN "I" ELSE "D")
 
@@ -365,7 +364,7 @@ ExactlyOnce ==
 
 Consistent ==
   /\ TypeOK /\ DispositionConsistent /\ CatchIffBlocked /\ PendingOnlyIfBlocked
-  /\ InitiallyIgnoredSticks /\ KillStopNeverTrapped /\ ParentShape /\ CommandIsUsers
+  /\ InitiallyIgnoredSticks /\ InheritedIsTrue /\ KillStopNeverTrapped /\ ParentShape /\ CommandIsUsers
 
 -----------------------------------------------------------------------------
 \* P2 generator: one line per distinct live state (h is hidden by the VIEW);
